@@ -581,11 +581,12 @@ def bank_goals(ctx, F, S, np, cfg, bank, G):
                 warnings.simplefilter("ignore")
                 h = bank.get_impulse_response(i, wt)
             pk = float(np.max(np.abs(h)))
-            mid_tail = float(np.max(np.abs(h[wt // 2 - 2: wt // 2 + 3])))
-            for t in (sorted(set([0, 1, r.randint(0, max(1, ts[1] // 2)), ts[1]])) if mid_tail <= 1e-13 * pk else []):
+            for t in sorted(set([0, 1, r.randint(0, max(1, ts[1] // 2)), ts[1]])):
                 v = float(abs(h[t]))
+                # res[t] = val(t) + conj(val(width - t)): the second image bounds the difference
                 G.near("(gabor_ir_abs %s %s %s)" % (b(cfg["l2"]), std, q(t)), v, 1e-9 * pk, CERT,
-                       dict(kind="gabor_ir", filt=i, width=wt, t=t, value=v, **base))
+                       dict(kind="gabor_ir", filt=i, width=wt, t=t, value=v, **base),
+                       extra_tol="(gabor_ir_abs %s %s %s)" % (b(cfg["l2"]), std, q(wt - t)))
         if span < rate / 2:
             measure_goals(ctx, np, cfg, bank, T, G, i, base)
         return
@@ -599,14 +600,16 @@ def bank_goals(ctx, F, S, np, cfg, bank, G):
             warnings.simplefilter("ignore")
             h = bank.get_impulse_response(i, wt)
         pk = float(np.max(np.abs(h)))
-        mid_tail = float(np.max(np.abs(h[wt // 2 - 2: wt // 2 + 3])))
-        cand = [1, 2, r.randint(1, max(2, ts[1] // 3)), max(1, ts[1] // 2)] if mid_tail <= 1e-13 * pk else []
-        if cand and cfg["mc"] and ts[0] < -1:
+        cand = [1, 2, r.randint(1, max(2, ts[1] // 3)), max(1, ts[1] // 2)]
+        if cfg["mc"] and ts[0] < -1:
             cand += [0, -1, ts[0] // 2]
-        for t in sorted(set(cand)):
+        hab = lambda t: "(gammatone_h_abs %s %s %d%%nat %s %s)" % (cc, alpha, order, off, q(t))  # noqa: E731
+        for t in sorted(set(cand))[:3]:
             v = float(abs(h[t % wt]))
-            G.near("(gammatone_h_abs %s %s %d%%nat %s %s)" % (cc, alpha, order, off, q(t)), v, 1e-9 * pk + 1e-300,
-                   "c05_unfold; unfold Rminus; c05_cert.", dict(kind="gammatone_ir", filt=i, width=wt, t=t, value=v, **base), 2)
+            # res[idx] = sum over periods of h(idx + p width): the neighbouring periods bound the difference
+            G.near(hab(t), v, 1e-9 * pk + 1e-300, "c05_unfold; unfold Rminus; c05_cert.",
+                   dict(kind="gammatone_ir", filt=i, width=wt, t=t, value=v, **base), 3,
+                   extra_tol="(%s + %s)" % (hab(t - wt), hab(t + wt)))
     width = r.choice([64, 256, 1000, 4096])
     with warnings.catch_warnings():
         warnings.simplefilter("ignore")
@@ -705,6 +708,7 @@ def run(ctx):
                 bank_goals(ctx, F, S, np, cfg, bank, G)
             except Exception as e:  # noqa: BLE001
                 bad.append(("observation_failed", dict(config=short(cfg), error="%s: %s" % (type(e).__name__, e))))
+    ctx.log("searched %d banks, %d certification goals so far" % (nb, len(G.items)))
     # ---- range test
     ranges = [gen_range(ctx) for _ in range(ctx.scale(240, 2400))]
     for cls in classes:  # boundary cases, every class
@@ -725,8 +729,9 @@ def run(ctx):
                 known_typeerror.append(dict(range=g, outcome=out))
             else:
                 bad.append(("range_not_rejected", dict(range=g, outcome=out)))
-        if out.startswith("other") and not must_reject(g) and g["high"] is not None and g["high"] > g["low"] >= 0 \
-                and g["high"] <= math.floor(g["rate"] / 2):
+        if out.startswith("other") and not must_reject(g) and g["high"] is not None and g["low"] >= 0 \
+                and g["high"] - g["low"] >= 50 and g["high"] <= math.floor(g["rate"] / 2):
+            # (very narrow Gabor / gammatone ranges overflow to NaN: not "constructible", not judged)
             bad.append(("valid_range_failed", dict(range=g, outcome=out)))
         if out in ("accept", "reject"):
             exp = out
@@ -741,6 +746,7 @@ def run(ctx):
         "(bank configuration, observable, index); all are non-trivial (they evaluate generated formulas)"
     )
     # ---- compile the goals
+    ctx.log("compiling %d certification goals (total weight %d)" % (len(G.items), sum(x[2] for x in G.items)))
     mism = []
     if ok_gen and G.items:
         okb, out = C.coq_make(["lib/C05_Cert.v"])
